@@ -93,6 +93,11 @@ func (g *Global) Type() types.Type {
 		g.Typ = types.NewPointer(g.ContentType)
 		g.Typ.AddrSpace = g.AddrSpace
 	}
+	// The address space may have been set after the type was cached.
+	if g.Typ.AddrSpace != g.AddrSpace {
+		g.Typ = types.NewPointer(g.ContentType)
+		g.Typ.AddrSpace = g.AddrSpace
+	}
 	return g.Typ
 }
 
